@@ -1,6 +1,7 @@
 package main
 
 import (
+	"regexp"
 	"sort"
 	"strings"
 )
@@ -37,14 +38,23 @@ func flagsOf(ts ...*Ty) map[string]bool {
 
 // AssignKey identifies the class of mutually assignable root types.
 func (t *Ty) AssignKey() string {
+	k := t.Expr
 	switch t.Kind {
 	case "nslice":
-		return "[]" + t.Elem.Expr
+		k = "[]" + t.Elem.Expr
 	case "nmap":
-		return "map[string]" + t.Elem.Expr
+		k = "map[string]" + t.Elem.Expr
 	}
-	return t.Expr
+	// byte and rune are aliases: identical types for goderive
+	return aliasRe.ReplaceAllStringFunc(k, func(s string) string {
+		if s == "byte" {
+			return "uint8"
+		}
+		return "int32"
+	})
 }
+
+var aliasRe = regexp.MustCompile(`\b(byte|rune)\b`)
 
 func mangle(expr string) string {
 	r := strings.NewReplacer("*", "P", "[]", "S", "[2]", "A2", "map[", "M", "]", "_", ".", "_", " ", "", "{", "", "}", "", ";", "")
